@@ -20,6 +20,27 @@ use super::*;
 include!("wake_common.rs");
 use vwk::{waker, wakes};
 
+/// Work-around for a Kani 0.68 layout bug: the goto type generated for the niche-encoded enum
+/// `ParameterValue` (Bytes + PreferredAddress variants) is LARGER than rustc's `size_of`, so
+/// `Box::new` / `Arc::new` of a value containing it (Arc<Parameters<R>>) writes past the object the
+/// allocator returned (spurious "pointer outside object bounds", and the copy is corrupted).
+/// Every heap object gets 64 bytes of slack; deallocation is a no-op (sizes no longer match).
+/// Given up in these harnesses: detection of heap overflows < 64 bytes and of bad deallocations.
+pub(crate) unsafe fn stub_alloc_slack(layout: std::alloc::Layout) -> *mut u8 {
+    unsafe {
+        std::alloc::alloc_zeroed(std::alloc::Layout::from_size_align_unchecked(layout.size() + 64, layout.align()))
+    }
+}
+pub(crate) unsafe fn stub_dealloc_leak(_ptr: *mut u8, _layout: std::alloc::Layout) {}
+pub(crate) unsafe fn stub_realloc_slack(ptr: *mut u8, layout: std::alloc::Layout, new_size: usize) -> *mut u8 {
+    unsafe {
+        let new = std::alloc::alloc_zeroed(std::alloc::Layout::from_size_align_unchecked(new_size + 64, layout.align()));
+        let n = if layout.size() < new_size { layout.size() } else { new_size };
+        ::core::ptr::copy_nonoverlapping(ptr, new, n);
+        new
+    }
+}
+
 /// 1-byte connection id with a symbolic byte (the waker protocol does not depend on cid length;
 /// lengths 0..=20 are covered by the C18 authenticate harnesses).
 fn cid1(b: u8) -> ConnectionId {
@@ -128,6 +149,9 @@ fn any_cids() -> Cids {
 
 /// waiter step: poll_ready by task 0 from any INV state (either role, any progress).
 #[kani::proof]
+#[kani::stub(std::alloc::alloc, stub_alloc_slack)]
+#[kani::stub(std::alloc::dealloc, stub_dealloc_leak)]
+#[kani::stub(std::alloc::realloc, stub_realloc_slack)]
 #[kani::unwind(5)]
 fn c16_params_step_poll() {
     let c = any_cids();
@@ -205,24 +229,36 @@ fn step_event<const AS_CLIENT: bool, const PARAMS: bool>() {
 }
 
 #[kani::proof]
+#[kani::stub(std::alloc::alloc, stub_alloc_slack)]
+#[kani::stub(std::alloc::dealloc, stub_dealloc_leak)]
+#[kani::stub(std::alloc::realloc, stub_realloc_slack)]
 #[kani::unwind(5)]
 fn c16_params_step_recv_params_client() {
     step_event::<true, true>();
 }
 
 #[kani::proof]
+#[kani::stub(std::alloc::alloc, stub_alloc_slack)]
+#[kani::stub(std::alloc::dealloc, stub_dealloc_leak)]
+#[kani::stub(std::alloc::realloc, stub_realloc_slack)]
 #[kani::unwind(5)]
 fn c16_params_step_recv_params_server() {
     step_event::<false, true>();
 }
 
 #[kani::proof]
+#[kani::stub(std::alloc::alloc, stub_alloc_slack)]
+#[kani::stub(std::alloc::dealloc, stub_dealloc_leak)]
+#[kani::stub(std::alloc::realloc, stub_realloc_slack)]
 #[kani::unwind(5)]
 fn c16_params_step_scid_client() {
     step_event::<true, false>();
 }
 
 #[kani::proof]
+#[kani::stub(std::alloc::alloc, stub_alloc_slack)]
+#[kani::stub(std::alloc::dealloc, stub_dealloc_leak)]
+#[kani::stub(std::alloc::realloc, stub_realloc_slack)]
 #[kani::unwind(5)]
 fn c16_params_step_scid_server() {
     step_event::<false, false>();
@@ -231,6 +267,9 @@ fn c16_params_step_scid_server() {
 /// failure step: the connection error drops the Parameters (`*guard = Err(e)` in
 /// ArcParameters::on_conn_error); Drop wakes every registered task.
 #[kani::proof]
+#[kani::stub(std::alloc::alloc, stub_alloc_slack)]
+#[kani::stub(std::alloc::dealloc, stub_dealloc_leak)]
+#[kani::stub(std::alloc::realloc, stub_realloc_slack)]
 #[kani::unwind(5)]
 fn c16_params_step_fail() {
     let c = any_cids();
